@@ -1,7 +1,7 @@
 (* Props/C13.v -- statements claimed for C13 (geometric measures), about Model/TriaGeom.v over R. *)
 From Coq Require Import List Arith Reals.
 From LaPyV Require Import Base.Scalar Base.Vec3 Base.ListAux Base.Sparse Model.TetMesh Model.TriaAdj Model.TriaOrient
-  Model.Fem Model.TriaGeom Proofs.SparseP Proofs.FemTriaP Proofs.TriaGeomP Proofs.TriaOrientP Proofs.TriaAdjP Proofs.InvarianceP Proofs.VolumeTransP Proofs.VolumeScaleP Proofs.QualityInvarP Proofs.FlowP Proofs.CentroidAffP Proofs.TetRigidP Proofs.EdgeLenInvarP Proofs.NormalOffsetP Proofs.AreaInvarP.
+  Model.Fem Model.TriaGeom Proofs.SparseP Proofs.FemTriaP Proofs.TriaGeomP Proofs.TriaOrientP Proofs.TriaAdjP Proofs.InvarianceP Proofs.VolumeTransP Proofs.VolumeScaleP Proofs.QualityInvarP Proofs.FlowP Proofs.CentroidAffP Proofs.TetRigidP Proofs.EdgeLenInvarP Proofs.VertexAreasInvarP Proofs.NormalOffsetP Proofs.AreaInvarP.
 Import ListNotations.
 Open Scope R_scope.
 
@@ -184,3 +184,15 @@ Theorem C13_tet_avg_edge_length_rigid_invariant_and_scales : forall Q b s v ts, 
   tet_avg_edge_length Rops (map (vscaleR s) v) ts = s * tet_avg_edge_length Rops v ts.
 Proof. exact tet_avg_edge_length_rigid_scale. Qed.
 Print Assumptions C13_tet_avg_edge_length_rigid_invariant_and_scales.
+
+(* tria_areas and vertex_areas, as whole lists: unchanged by every rigid motion, every entry multiplied by s^2 under scaling *)
+Theorem C13_area_lists_invariant_under_rigid_motion : forall Q b v ts, orthogonal Q -> tris_in_range (length v) ts ->
+  tria_areas Rops (map (rigid Q b) v) ts = tria_areas Rops v ts /\ vertex_areas Rops (map (rigid Q b) v) ts = vertex_areas Rops v ts.
+Proof. exact areas_rigid_invariant. Qed.
+Print Assumptions C13_area_lists_invariant_under_rigid_motion.
+
+Theorem C13_area_lists_scale_with_the_square : forall s v ts, tris_in_range (length v) ts ->
+  tria_areas Rops (map (vscaleR s) v) ts = map (fun x => s * s * x) (tria_areas Rops v ts) /\
+  vertex_areas Rops (map (vscaleR s) v) ts = map (fun x => s * s * x) (vertex_areas Rops v ts).
+Proof. exact areas_scale. Qed.
+Print Assumptions C13_area_lists_scale_with_the_square.
